@@ -53,3 +53,9 @@ func (w *W) Note(name string) bool {
 	seen[name]++
 	return bytes.HasPrefix(w.buf.Bytes(), prefix)
 }
+
+// chanLenBusy decides by the length of a channel: a CUT-NO-CHANLEN positive.
+func chanLenBusy(waiting chan int) bool { return len(waiting) == 0 }
+
+// chanLenFree only sends and receives: a CUT-NO-CHANLEN negative.
+func chanLenFree(waiting chan int) int { waiting <- 1; return <-waiting }
